@@ -28,9 +28,17 @@ from spec import avm
 
 # class of a violation -> id of the listed finding it is an instance of (filled from the triage of the unchanged tree)
 CLASS_TO_FINDING: Dict[str, str] = {
-    # D6: parse_teal prunes unreachable blocks with `for x in l: l.remove(x)`: a dead block with two successors keeps one edge
+    # D6 (fixed): parse_teal pruned unreachable blocks with `for x in l: l.remove(x)`
     "prev-names-block-outside-graph": "D6",
     "instr-prev-names-instruction-outside": "D6",
+    "walk-edge-missing-in-prev_blocks_global": "D21",
+    "exit-blocks-miss-conditional-branch-as-last-instruction": "D22",
+    "construct_function-crash:KeyError@_calculate_reachin": "D23",
+    "construct_function-crash:KeyError@_calculate_livein": "D23",
+    "construct_function-crash:KeyError@_merge_information_backward": "D23",
+    "function-prev-names-block-outside-function": "D23",
+    "construct_function-crash:KeyError@return_point_blocks": "D24",
+    "function-misses-runs-that-reenter-the-dispatch-prefix": "D33",
 }
 
 NPROC = 16
@@ -587,6 +595,8 @@ def finish(pid: str, name: str, tot: Dict[str, Any], known: Any, summary: Dict[s
     for cls in sorted(tot["counts"], key=lambda c: (tot["examples"][c]["_size"], c)):
         base = cls.replace(SHARED_TAG, "")
         fid = CLASS_TO_FINDING.get(cls) or CLASS_TO_FINDING.get(base) or CLASS_TO_FINDING.get(base.split(":")[0])
+        if SHARED_TAG in cls:
+            fid = "D25"   # code shared between main and a subroutine body / two subroutine bodies (listed finding)
         cnt = tot["counts"][cls]
         if fid and fid in known_ids:
             attributed[fid] = attributed.get(fid, 0) + cnt
